@@ -141,6 +141,54 @@ ConcatT(t, u) == LET cs == t.cols \o SelectSeq(u.cols, LAMBDA x : x \notin ColSe
                             [i \in 1..NR(t) |-> pad(t.rows[i], ColSet(t))] \o [i \in 1..NR(u) |-> pad(u.rows[i], ColSet(u))]))
 RecordT(rec) == Tbl([k \in 1..Len(rec) |-> rec[k][1]], <<[cc \in {rec[k][1] : k \in 1..Len(rec)} |-> RecGet(rec, cc)]>>)
 
+\* ---- the caller's own argument objects -----------------------------------------------------------
+\* A session does not only hold tables: the caller keeps plain Python objects and hands THE SAME object to several calls
+\* (or to two parameters of one call).  The law for all of them: a call owns nothing of the caller - after every call each
+\* argument object is what it was before, and a call sees the object as it is at that moment (no memory of earlier calls).
+\*    m    a dict of columns  {name: scalar | list}   dictable(m), dictable(m, **kw), d.update(m), d(**m)
+\*    rn   a dict of renames  {old: new}              d.relabel(rn), d.rename(rn), d.relabel(rn, **kw)
+\*    recs a list of records  [{name: value}]         dictable(recs), d + recs, d += recs, d + recs[0]
+\*    L    a list of values                           d[c] = L, dictable(a = L, b = L), d(c = L)
+\*    cs   a list of column names                     d[cs], d - cs, d -= cs, d.do(f, cs), dictable(rows, cs)
+\*    ix   a list of row positions                    d[ix]
+\* lg: L has been handed over as a column (the library keeps a fitting list as the column itself, like a dict of lists would;
+\* what the caller does to that list afterwards is not a table operation, so the caller's edits of L stop there)
+ArgNames == {"m", "rn", "recs", "L", "cs", "ix"}
+World(m, rn, recs, L, cs, ix) == [m |-> m, rn |-> rn, recs |-> recs, L |-> L, cs |-> cs, ix |-> ix, lg |-> FALSE]
+NoArgs == World(<<>>, <<>>, <<>>, <<>>, <<>>, <<>>)
+W0 == World(<<<<"a", <<"l", <<V1, V2>>>>>>, <<"b", <<"s", VX>>>>>>, <<<<"a", "d">>>>, <<<<<<"a", V2>>>>, <<<<"c", VX>>, <<"a", None>>>>>>,
+            <<V1, V2>>, <<"b", "a">>, <<-1, 0>>)
+Worlds == {W0,
+           \* a one-row mapping (every length is 1: the broadcast base), a swap, one record, a three-long list, one name, one position
+           World(<<<<"a", <<"s", V1>>>>, <<"c", <<"l", <<VX>>>>>>>>, <<<<"a", "b">>, <<"b", "a">>>>, <<<<<<"b", V1>>, <<"a", VX>>>>>>, <<VX, None, V1>>, <<"a">>, <<0>>),
+           \* a mapping whose lengths do not fit, a rename of a column few tables have, no records, an empty list, an absent name
+           World(<<<<"c", <<"l", <<V1, V2, VX>>>>>>, <<"a", <<"l", <<V1, V2>>>>>>>>, <<<<"key", "k">>, <<"b", "y">>>>, <<>>, <<>>, <<"a", "e">>, <<1, 1>>),
+           \* an empty mapping, an empty rename, two records with the same keys, a one-long list
+           World(<<>>, <<>>, <<<<<<"a", V1>>, <<"b", V2>>>>, <<<<"a", None>>, <<"b", VX>>>>>>, <<V2>>, <<"c", "b">>, <<0, -1, 0>>)}
+ObserveArgs(w) == [k \in ArgNames |-> w[k]]
+\* the caller's own actions (new objects for all names; edits in place) and the calls that take the list L as a column
+CallerOps == {"Bind", "MapSet", "MapDel", "RnSet", "RnDel", "RecsAppend", "RecSet", "LAppend", "CsAppend", "CsPop", "IxAppend"}
+GivesL == {"NewColsL", "SetColL", "DeriveConstL"}
+MapCols(m) == [k \in 1..Len(m) |-> m[k][1]]
+MapArgs(m) == [k \in 1..Len(m) |-> m[k][2]]
+MapKeys(m) == {m[k][1] : k \in 1..Len(m)}
+MapPut(m, c, a) == IF c \in MapKeys(m) THEN [k \in 1..Len(m) |-> IF m[k][1] = c THEN <<c, a>> ELSE m[k]] ELSE Append(m, <<c, a>>)
+MapDrop(m, c) == SelectSeq(m, LAMBDA p : p[1] # c)
+NoDup(s) == Cardinality(Range(s)) = Len(s)
+\* dictable(m, **kw): the columns of the mapping and the keyword columns together (names of kw not in m: which one wins is not pinned down)
+FromMapKw(m, kw) == FromCols(MapCols(m) \o MapCols(kw), MapArgs(m) \o MapArgs(kw))
+\* dictable(d, **kw): the columns of the table d as lists, and the keyword columns, under the construction rule (length-1 broadcast)
+FromTableKw(t, kw) == FromCols(t.cols \o MapCols(kw), [k \in 1..Len(t.cols) |-> <<"l", ColVals(t, t.cols[k])>>] \o MapArgs(kw))
+\* dictable(rows, cs) with the caller's list of names as headers: two rows made up from the number of names
+RowsFor(cs) == [i \in 1..2 |-> [k \in 1..Len(cs) |-> IF (i + k) % 2 = 0 THEN V1 ELSE VX]]
+\* d.relabel(mapping [, **keywords]): all renames at once; columns the table does not have are ignored.  Domain: no two columns
+\* end up under one name (RenameFits)
+RenTo(pairs, c) == IF c \in MapKeys(pairs) THEN pairs[CHOOSE k \in 1..Len(pairs) : pairs[k][1] = c][2] ELSE c
+RenameFits(t, pairs) == \A c1 \in ColSet(t), c2 \in ColSet(t) : RenTo(pairs, c1) = RenTo(pairs, c2) => c1 = c2
+RenameManyT(t, pairs) == Ok(Tbl([k \in 1..Len(t.cols) |-> RenTo(pairs, t.cols[k])],
+                                [i \in 1..Len(t.rows) |-> [cc \in {RenTo(pairs, c) : c \in ColSet(t)} |-> t.rows[i][CHOOSE c \in ColSet(t) : RenTo(pairs, c) = cc]]]))
+\* d(**m) with plain values: the assignments of d.update(m) on a new table, all or nothing
+AssignAllT(t, items) == LET r == UpdateT(t, items, 1) IN IF r.ok THEN r ELSE Err(r.err)
 
 \* ---- general arguments (used by the trace specification for recorded random histories) -----------
 \* Python's slice semantics for d[lo:hi:step]; an absent bound is <<0, 0>>, a given one <<1, v>>
